@@ -217,6 +217,10 @@ func (ctx *Context) makeDetailStr(details []BufferSpan) string {
 	var m []Group
 	for _, i := range details {
 		// fmt.Println("?", i, lastEnd)
+		if i.Begin < 0 || i.Begin > i.End || i.End > IntType(offset) {
+			// 不在已匹配文本范围内的标注(来自被放弃的解析分支)，忽略
+			continue
+		}
 		if i.Begin > lastEnd {
 			curPoint = i.Begin
 			m = append(m, Group{begin: curPoint, end: i.End, tag: i.Tag, spans: []BufferSpan{i}, val: i.Ret})
